@@ -207,7 +207,7 @@ def ttml_soup(rng):
   done = []
   for _ in range(rng.choice([1, 1, 2, 3])):
     op = rng.choice(["style-loop", "style-self", "misplace", "set-kids", "br-kids", "dup-id", "deep", "deep", "region-in-content", "initial-anywhere",
-                     "nested-tt", "empty-containers", "text-in-block"])
+                     "nested-tt", "empty-containers", "text-in-block", "seq-anywhere", "seq-anywhere"])
     content = [n for n in nodes if n.tag in ("div", "p", "span", "body")]
     if "deep" in done and op in ("misplace", "nested-tt", "deep"):
       continue      # (copying a very deep subtree would exhaust the generator's own stack)
@@ -268,6 +268,15 @@ def ttml_soup(rng):
       for n in nodes:
         if n.tag in ("head", "styling", "layout", "body", "div") and rng.random() < 0.5:
           n.kids = []
+    elif op == "seq-anywhere":
+      # timeContainer="seq" on elements that rarely carry it (region, br, set, span ...), each with a timed child
+      for n in rng.sample(nodes, min(len(nodes), 4)) + (by_tag.get("region") or [])[:2]:
+        if n.tag in ("region", "br", "set", "span", "p", "div", "body"):
+          n.set("timeContainer", "seq")
+          if n.tag in ("region", "br", "set"):
+            n.kids.append(N("set", [["begin", "1s"], ["end", "2s"], ["tts:backgroundColor", "red"]]))
+            if rng.random() < 0.5:
+              n.kids.append(N("set", [["dur", "1s"], ["tts:opacity", "0.5"]]))
     elif op == "text-in-block":
       blk = [n for n in nodes if n.tag in ("tt", "head", "styling", "layout", "body", "div", "region")]
       if blk:
